@@ -566,6 +566,9 @@ class MonteCarloSampler(object):
         self.Ninteract = np.array([len(inter) for inter in siteinteract])
         # see https://stackoverflow.com/questions/38619143/convert-python-sequence-to-numpy-array-filling-missing-values
         self.siteinteract = np.array(list(itertools.zip_longest(*siteinteract, fillvalue=-1))).T
+        if self.siteinteract.ndim != 2:
+            # no site carries any interaction: keep one (empty) row per site so that start() still sees every site
+            self.siteinteract = np.zeros((len(siteinteract), 0), dtype=int)
         self.interactvalue = np.array(interactvalue)
         # to be initialized with start()
         self.occ, self.clustercount, self.occupied_set, self.unoccupied_set = None, None, None, None
